@@ -54,7 +54,7 @@ def gen_case(rng, allow_entity_in_expr):
                 parts.append(('expr', rng.choice(['tick()', 'tick()', 'tick() ', 'tick() * 10'])))
                 continue
             if rng.random() < .2:
-                e = rng.choice(['o', 'h', 'by', 'nn', 'fl', 'uni', "d['q']", 'ss', 'ss'])
+                e = rng.choice(['o', 'h', 'by', 'nn', 'fl', 'uni', "d['q']", 'ss', 'ss', 'repeat', 'repeat + "!"'])
             if rng.random() < .15:
                 # the expression spans lines: '${' and its '}' are never on the same line
                 e = rng.choice(['\n v\n', 'n +\n 1', '\n(n,\n v)[1]\n', 's\n', '\n  uni\n  ', 'str(n) +\n t'])
@@ -163,6 +163,7 @@ def run(ctx):
     from chameleon import PageTextTemplate, PageTextTemplateFile
     rng = ctx.rng
     env = exprs.make_env()
+    env['repeat'] = 'RPT'        # a caller's variable may bear any name, also one the engine would otherwise fill in itself
     n = 1200 if ctx.quick else 20000
     tmp = tempfile.mkdtemp(prefix='c20_')
     try:
